@@ -24,7 +24,11 @@ def one(d):
             return [(name, '*', 'STALE', a.stderr.strip()[:100])]
         for p in props:
             env = dict(os.environ, VERIF_REPO=tmp, VERIF_SUBRUN='1', VERIF_SUBRUN_OUT=tmp + '/out')
-            r = subprocess.run(['/venv/bin/python', '-m', 'sa.check', p], cwd=home, env=env, capture_output=True, text=True, timeout=900)
+            try:
+                r = subprocess.run(['/venv/bin/python', '-m', 'sa.check', p], cwd=home, env=env, capture_output=True, text=True, timeout=900)
+            except subprocess.TimeoutExpired:
+                out.append((name, p, 'ANALYSIS-ERROR', 'timeout after 900 s'))
+                continue
             if r.returncode != 0:
                 lines = [l for l in r.stdout.splitlines() if l.startswith(('FAIL', 'ANALYSIS-ERROR'))]
                 out.append((name, p, 'VIOLATION' if r.returncode == 1 else 'ANALYSIS-ERROR',
